@@ -52,12 +52,13 @@ Proof.
   - apply IH. intros y Hy. apply H. right. exact Hy.
 Qed.
 
-Lemma docs_escape x : docs x -> docs (escape x).
+Lemma docs_escape x : forallb is_xml_char x = true -> docs (escape_text x).
 Proof.
-  intro H. rewrite escape_flat. apply docs_flat_map. intros c Hc.
-  unfold docs in H. rewrite forallb_forall in H. specialize (H c Hc).
-  unfold esc_char. destruct (c =? 38); [reflexivity|]. destruct (c =? 62); [reflexivity|].
-  destruct (c =? 60); [reflexivity|]. unfold docs. simpl. rewrite H. reflexivity.
+  intro H. rewrite escape_text_flat. apply docs_flat_map. intros c Hc.
+  rewrite forallb_forall in H. specialize (H c Hc).
+  unfold esc_text_char, esc_char. destruct (c =? 13) eqn:E13; [reflexivity|].
+  destruct (c =? 38); [reflexivity|]. destruct (c =? 62); [reflexivity|].
+  destruct (c =? 60); [reflexivity|]. unfold docs, doc_char_ok. simpl. rewrite H, E13. reflexivity.
 Qed.
 
 Lemma docs_escape_attr x : value_ok x = true -> docs (escape_attr x).
@@ -112,7 +113,7 @@ Proof.
   - apply docs_escape_attr, H2.
 Qed.
 
-Lemma docs_otext o : otext_ok o = true -> docs (otext o).
+Lemma docs_otext o : otext_ok o = true -> forallb is_xml_char (otext o) = true.
 Proof. destruct o; [exact (fun H => H) | reflexivity]. Qed.
 
 Inductive tree_val : ftree -> Prop :=
@@ -160,7 +161,7 @@ Proof.
   intros HL HV Ht. unfold xparse_raw, to_xml_top.
   pose proof (docs_to_xml t HL HV None 0%nat) as Hd. unfold docs in Hd. rewrite Hd. cbn [negb].
   pose proof (to_xml_len None 0%nat t) as Hlen. pose proof (need_le_core t None 0%nat) as Hneed.
-  rewrite to_xml_core in *. rewrite Ht in *. cbn [otext] in *. rewrite escape_nil, app_nil_r in *.
+  rewrite to_xml_core in *. rewrite Ht in *. cbn [otext] in *. rewrite escape_text_nil, app_nil_r in *.
   change (indent 0) with (@nil N) in *. cbn [app] in *.
   destruct t as [d kids]. destruct (tree_lex_inv _ _ HL) as [L _].
   destruct (core_head None 0%nat d kids L) as (c & r & Ec & Hc).
